@@ -389,7 +389,13 @@ func (e *clockEngine) runInBubble(c *ClockCase, st *Stats) *Violation {
 			}
 		}
 		st.Inc("sleep_outcome_" + class)
-		h = h.Str(class).Int(elapsed)
+		if pred.tie {
+			// an exact tie may legitimately go either way: keep it out of the
+			// execution hash so the simulator's own log stays reproducible
+			h = h.Str("tie").Int(elapsed)
+		} else {
+			h = h.Str(class).Int(elapsed)
+		}
 		if class != "nil" || pred.tie {
 			nontrivial = true
 		}
